@@ -71,6 +71,13 @@ CasesPlain ==
             s \in {x \in Closed(SelDepth, Graphs[gi]) : Compiles(x, FALSE)}}
          : gi \in MyGraphs}
 
+\* C07 again, under visit-links-once: the same selectors on the graphs that have links (a link that is met first where
+\* the selector does not explore it and later where it does must still be loaded and visited there)
+CasesPlainOnce ==
+  UNION {{[g |-> Graphs[gi], sel |-> s, cfg |-> [NoCfg EXCEPT !.once = TRUE]] :
+            s \in {x \in Closed(SelDepth, Graphs[gi]) : Compiles(x, FALSE)}}
+         : gi \in {x \in MyGraphs : Len(Graphs[x]) >= 2}}
+
 \* C15: a set of walk-everything / recursive / field selectors x every control, one at a time
 CtlSels(g) ==
   { SRec(-1, -1, SAll(SEdge)), SRec(2, -1, SAll(SEdge)), SRec(3, -1, SUnion(<<SMatch, SAll(SEdge)>>)),
